@@ -27,7 +27,15 @@ func vC20Sleep(d time.Duration) {
 	if d > 0 {
 		vClock += int64(d)
 	}
+	// a scheduling point: whatever another goroutine does while the loop sleeps (the loop holds no lock here)
+	if vDuringSleep != nil && d > 10*time.Millisecond {
+		f := vDuringSleep
+		vDuringSleep = nil
+		f()
+	}
 }
+
+var vDuringSleep func()
 
 var vSleeps, vSleepCut int
 
@@ -222,5 +230,66 @@ func H_C20c() {
 		vCover("droppedHeld")
 		vAssert(len(emitted) == 0, "nothing is requested once everything is stored")
 	}
+	vCover("end")
+}
+
+
+//verif:obligation C20.d tier=quick use=clock bounds=2-hashes,1-pending-announcer-for-the-first,one-concurrent-event-while-loop-sleeps(none|item-arrives-at-a-holder-that-does-not-cancel-the-pull|announcement-of-the-other-hash|pull-refresh),2-loop-iterations(cut) covers=arrived,announced,refreshed,requested,end
+// loop() (real code) with ONE event of another goroutine placed at the loop's sleep (the only place where it
+// waits, holding no lock): the interleavings "item arrives / other hash announced / pull refreshed while the
+// head entry waits for its pull delay". No request goes out for an item that is stored by then, and no
+// pending announcer is lost: each is afterwards still pending, or was asked, or was dropped because its item
+// is stored or its pull is no longer outstanding.
+func H_C20d() {
+	delay := 10 * time.Second
+	d := NewDefaultPushTracker(delay)
+	h := &vHolder{held: map[common.Hash128]bool{}}
+	d.SetHolder(h)
+	a, b := vHash(1), vHash(2)
+	vClock = 0
+	// B was asked for first, then A; a further peer announces A
+	d.RegisterPull(b)
+	vClock += int64(vChoice("gapBA", 2)) * int64(time.Second)
+	d.RegisterPull(a)
+	vClock += int64(time.Second)
+	d.AddPendingPush(peer.ID("a2"), a)
+	added := []PendingPulls{{Id: peer.ID("a2"), Hash: a}}
+	switch vChoice("duringSleep", 4) {
+	case 1:
+		vCover("arrived")
+		vDuringSleep = func() { h.held[a] = true } // TxPool / KeysPool style holder: Add does not call RemovePull
+	case 2:
+		vCover("announced")
+		vDuringSleep = func() { d.AddPendingPush(peer.ID("b2"), b) }
+		added = append(added, PendingPulls{Id: peer.ID("b2"), Hash: b})
+	case 3:
+		vCover("refreshed")
+		vDuringSleep = func() { d.RegisterPull(a) }
+	}
+	h.hasCalls, h.cutAfter = 0, 2
+	vSleeps, vSleepCut = 0, 3
+	cut := vPanics(func() { d.loop() })
+	vDuringSleep = nil
+	vAssert(cut, "the loop only stops at the harness cut")
+	var emitted []PendingPulls
+	for len(d.requests) > 0 {
+		r := <-d.requests
+		vCover("requested")
+		vAssert(!h.held[r.Hash], "no request is issued for an item that is already stored")
+		emitted = append(emitted, r)
+	}
+	for _, e := range added {
+		kept := false
+		for _, p := range d.pendingPushes.list {
+			kept = kept || p.req == e
+		}
+		asked := false
+		for _, r := range emitted {
+			asked = asked || r == e
+		}
+		_, outstanding := d.activePulls.Load(e.Hash)
+		vAssert(kept || asked || h.held[e.Hash] || !outstanding, "the tracker does not lose an announcer that could still serve the item")
+	}
+	vAssert(len(emitted) <= len(added), "each announcer is asked at most once")
 	vCover("end")
 }
